@@ -163,12 +163,18 @@ def run_beating(cmd, **kw):
     import subprocess
     import tempfile
     with tempfile.TemporaryFile() as fo, tempfile.TemporaryFile() as fe:
+        limit = kw.pop('limit', float(os.environ.get('VERIF_DRIVER_LIMIT_S', '5400')))
         p = subprocess.Popen(cmd, stdout=fo, stderr=fe, stdin=subprocess.DEVNULL, **kw)
+        t0 = time.time()
         while True:
             try:
                 p.wait(timeout=10)
                 break
             except subprocess.TimeoutExpired:
+                if time.time() - t0 > limit:
+                    p.kill()       # a native driver that never finishes is reported by the caller (no STAT/DONE line)
+                    p.wait()
+                    break
                 beat()
         fo.seek(0)
         fe.seek(0)
